@@ -28,6 +28,8 @@ class Interner:
   def __init__(self):
     self.names: Dict[str, int] = {}
     self.back: List[str] = []
+    # the models refer to the parameter name `value` (TaggedValue's only argument) as 0
+    self("value")
 
   def __call__(self, name: str) -> int:
     if name not in self.names:
